@@ -56,7 +56,7 @@ func c11Gen(t *rapid.T) C11Case {
 	n := rapid.IntRange(6, 40).Draw(t, "actions")
 	el := 0
 	for i := 0; i < n; i++ {
-		a := C11Action{Kind: weighted(t, "kind", []int{4, 8, 4, 3, 2}), Who: rapid.IntRange(0, 11).Draw(t, "who")}
+		a := C11Action{Kind: weighted(t, "kind", []int{4, 8, 4, 3, 2, 0, 0, 2}), Who: rapid.IntRange(0, 11).Draw(t, "who")}
 		if a.Kind == 4 {
 			// scripted adversary: a waiter goes to sleep, is woken by a push, and a competing consumer
 			// takes the element before the waiter retries; then more pushes follow
@@ -78,6 +78,19 @@ func c11Gen(t *rapid.T) C11Case {
 		switch a.Kind {
 		case 0:
 			a.Argv = kit.A(c11Block(t)...)
+		case 7:
+			// a push (or a move onto a watched list) queued in a transaction
+			k := pick(t, "k", c11Keys...)
+			if rapid.IntRange(0, 3).Draw(t, "txmove") == 0 {
+				a.Argv = kit.A(pick(t, "txm", []string{"LMOVE", pick(t, "src", c11Keys...), k, "LEFT", "RIGHT"}, []string{"RPOPLPUSH", pick(t, "src2", c11Keys...), k})...)
+				break
+			}
+			argv := []string{pick(t, "push", "LPUSH", "RPUSH", "RPUSHX"), k}
+			for j := rapid.IntRange(1, 2).Draw(t, "n"); j > 0; j-- {
+				argv = append(argv, "e"+strconv.Itoa(el))
+				el++
+			}
+			a.Argv = kit.A(argv...)
 		case 2:
 			argv := []string{pick(t, "push", "LPUSH", "RPUSH"), pick(t, "k", c11Keys...)}
 			for j := rapid.IntRange(1, 3).Draw(t, "n"); j > 0; j-- {
@@ -162,6 +175,11 @@ func c11Run(c C11Case, st *kit.Stats) (err error) {
 		case 2:
 			st.Class("push")
 			if err := s.atomic(pusher, pse, a.Argv.Strs()); err != nil {
+				return err
+			}
+		case 7:
+			st.Class("push-inside-MULTI-EXEC")
+			if err := s.atomicTx(pusher, pse, a.Argv.Strs()); err != nil {
 				return err
 			}
 		case 3:
